@@ -190,6 +190,9 @@ class Evaluator(Interp):
                         return SV(ty, ty.member(mn))
             if attr == "__name__":
                 return SV(TStr, z3.StringVal(ci.name))
+            if attr == "__new__" and self.w.find_method(ci.qname, "__new__") is None:
+                # object.__new__: cls.__new__(cls) allocates an instance without running __init__
+                return VBuiltin("objnew")
             m = self.w.find_method(ci.qname, attr)
             if m is not None:
                 if m.kind == "classmethod":
@@ -1461,6 +1464,11 @@ class Evaluator(Interp):
     def s_ImportFrom(self, st, fr):
         for a in st.names:
             mod = st.module
+            if getattr(st, "level", 0):
+                # relative import: resolve against the package of the module being executed
+                pkg = fr.module.split(".")
+                pkg = pkg[:len(pkg) - st.level]
+                mod = ".".join(pkg + ([st.module] if st.module else []))
             r = None
             if mod in self.w.modules:
                 r = self.w.deref_const(self.w.resolve_name(mod, a.name))
